@@ -199,6 +199,35 @@ func zzValue(d int, path string, s *zzSpec, n int, arrayLevel int) zzFacets {
 			}
 			f.enum = zzvrt.And(isNum, member)
 		}
+	case "enum":
+		// general enum: JSON equality with one of the listed values (null is handled by the
+		// position); a declared type applies as well
+		member := false
+		for _, v := range s.enumAny {
+			switch m := v.(type) {
+			case string:
+				member = zzvrt.Or(member, zzvrt.And(zzKindIs(d, path, zzvrt.KString), zzvrt.DStr(d, path) == m))
+			case float64:
+				if s.enumType == "integer" {
+					member = zzvrt.Or(member, zzvrt.And(zzKindIs(d, path, zzvrt.KNumber), zzvrt.DInt(d, path) == int64(m)))
+				} else {
+					member = zzvrt.Or(member, zzvrt.And(zzKindIs(d, path, zzvrt.KNumber), zzvrt.DFloat(d, path) == m))
+				}
+			case bool:
+				member = zzvrt.Or(member, zzvrt.And(zzKindIs(d, path, zzvrt.KBool), zzvrt.DBool(d, path) == m))
+			}
+		}
+		switch s.enumType {
+		case "string":
+			member = zzvrt.And(member, zzKindIs(d, path, zzvrt.KString))
+		case "integer":
+			member = zzvrt.And(member, zzvrt.And(zzKindIs(d, path, zzvrt.KNumber), zzvrt.DIsInt(d, path)))
+		case "number":
+			member = zzvrt.And(member, zzKindIs(d, path, zzvrt.KNumber))
+		case "boolean":
+			member = zzvrt.And(member, zzKindIs(d, path, zzvrt.KBool))
+		}
+		f.enum = member
 	case "enum-mixed":
 		member := false
 		str := zzvrt.DStr(d, path)
@@ -237,6 +266,15 @@ func zzPosition(d int, path string, s *zzSpec, n int, arrayLevel int, _ bool) zz
 		return zzAllTrue()
 	case s.kind == "null":
 		return v
+	case s.kind == "enum":
+		for _, m := range s.enumAny {
+			if m == nil {
+				return v // null is a listed value
+			}
+		}
+		nf := zzAllTrue()
+		nf.dontCare = isNull
+		return v.and(nf)
 	case s.kind == "enum-mixed" || s.kind == "enum-string-null":
 		// null is a listed value of these enums
 		return v
